@@ -37,7 +37,7 @@ ASSUMPTIONS = [
     'callback; crash consistency (power loss with synchronous=OFF) is outside the property',
 ]
 
-KMAX = 128
+KMAX = 192 if rt.THOROUGH else 128
 NPARTS = 16
 
 
@@ -47,8 +47,15 @@ def _pre_existing():
 
 def _victim():
     p = docs.P({'mili1': 'i7'})    # its own ILI (a shared, already known ILI keeps its definition)
-    return docs.resource([docs.lexicon_small(p, 'A', tag='a', ili='i1'),
-                          docs.lexicon_rich(p, lid='M', style='1.1', tag='m')], '1.1')
+    lexs = [docs.lexicon_small(p, 'A', tag='a', ili='i1'),
+            docs.lexicon_rich(p, lid='M', style='1.1', tag='m')]
+    if rt.THOROUGH:
+        # thorough tier: the resource also holds an extension of the pre-existing lexicon
+        lexs.append(docs.extension_small(p, 'X', base=('P', '1'), tag='x', btag='p'))
+    return docs.resource(lexs, '1.1')
+
+
+_WANT = ['P', 'A', 'M'] + (['X'] if rt.THOROUGH else [])
 
 
 def _krange():
@@ -93,7 +100,7 @@ def h_add_fault(k: int, hard: bool, both: bool) -> bool:
             # the library stays usable: a following add of the same data gives the normal result
             rt.quiet_add(doc)
     if ok:
-        ok = [lx.id for lx in wn.lexicons()] == ['P', 'A', 'M'] and not db.in_transaction()
+        ok = [lx.id for lx in wn.lexicons()] == _WANT and not db.in_transaction()
         ok = ok and docs.observe_lexicon(wn, 'M:1') == docs.project_lexicon(doc['lexicons'][1])
     return rt.verdict(ok)
 
@@ -146,12 +153,12 @@ def h_corrupt(j: int, first: bool) -> bool:
         raised = True
     if j == 7:
         return rt.verdict(not raised and [lx.id for lx in wn.lexicons()][0] == 'P'
-                          and len(wn.lexicons()) == 3)
+                          and len(wn.lexicons()) == len(_WANT))
     ok = raised and db.dump() == before and not db.in_transaction()
     if ok:
         good = _victim()
         rt.quiet_add(good)
-        ok = sorted(lx.id for lx in wn.lexicons()) == ['A', 'M', 'P']
+        ok = sorted(lx.id for lx in wn.lexicons()) == sorted(_WANT)
         ok = ok and docs.observe_lexicon(wn, 'M:1') == docs.project_lexicon(good['lexicons'][1])
     return rt.verdict(ok)
 
